@@ -632,7 +632,7 @@ def suite_random(ctx: Ctx) -> SuiteResult:
              "of torch/model.py and the stand-in's load_state_dict; non-trivial = the two threads' "
              "critical sections alternate at least once; distinct = by (programs, parameters, lock "
              "order)")
-    for _ in range(ctx.n(700, 20000)):
+    for _ in range(ctx.n(1200, 25000)):
         case = random_case(ctx.rng)
         vs, d, r = run_case(case, ctx.driver)
         case = dict(case, schedule=r.schedule)
